@@ -6,8 +6,11 @@ V = os.path.dirname(os.path.dirname(os.path.abspath(__file__)))
 props = [json.loads(l) for l in open(os.path.join(V, "properties.jsonl"))]
 na = json.load(open(os.path.join(V, "tools", "not_applicable.json")))
 checks, claimed = [], set()
+ready = {l.strip() for l in open(os.path.join(V, "tools", "claimed.txt")) if l.strip()}
 for p in props:
     pid = p["id"]
+    if pid not in ready:
+        continue
     path = os.path.join(V, "contracts", f"{pid}.py")
     if not os.path.exists(path):
         continue
